@@ -22,7 +22,7 @@ import (
 var elemTypeOpts = gen.TypeOpts{Depth: 2}
 
 // members may be null at any depth below the root; nothing is unknown or marked.
-var memberOpts = gen.ValOpts{Null: true, RootKnown: true, MaxElems: 4}
+var memberOpts = gen.ValOpts{Null: true, RootKnown: true, MaxElems: 4, Long: 20}
 
 // ---------------------------------------------------------------- equality bounds for set models
 
@@ -64,7 +64,7 @@ func drawIndexable(t *rapid.T) spec.V {
 	case 1:
 		ty = spec.Map(gen.Type(elemTypeOpts).Draw(t, "ety"))
 	default:
-		n := rapid.IntRange(0, 4).Draw(t, "tuplen")
+		n := tupLen(t)
 		es := make([]spec.T, n)
 		for i := range es {
 			es[i] = gen.Type(elemTypeOpts).Draw(t, "tty")
@@ -385,7 +385,7 @@ func genGLCase(t *rapid.T) GLCase {
 		}
 		ty = spec.Set(et)
 	default:
-		n := rapid.IntRange(0, 4).Draw(t, "tuplen")
+		n := tupLen(t)
 		es := make([]spec.T, n)
 		for i := range es {
 			es[i] = gen.Type(gen.TypeOpts{Depth: 1}).Draw(t, "tty")
@@ -886,3 +886,11 @@ func init() {
 }
 
 var _ = strconv.Itoa
+
+// tupLen draws a tuple length: 0..4, one time in ten a long one.
+func tupLen(t *rapid.T) int {
+	if rapid.IntRange(0, 9).Draw(t, "longtuple") == 5 {
+		return rapid.SampledFrom(gen.LongSizes[:10]).Draw(t, "longn")
+	}
+	return rapid.IntRange(0, 4).Draw(t, "tuplen")
+}
